@@ -64,6 +64,8 @@ def make_sample(rng, field, *, n, extent_mode, zrange, edges=None, weights=True,
         ext = [0.01] * N
     elif extent_mode == "wide":
         ext = [0.08] * N
+    elif extent_mode == "arcsec":
+        ext = [1.5e-5] * N        # a few arc seconds
     elif extent_mode == "hemisphere":
         ext = [1.55] * N          # objects anywhere in the half of the sky around their centre
     else:  # mixed: patches of very different extent
